@@ -8,7 +8,17 @@ def run(ctx):
     ctx.tlc_expect_violation("", "NamePool", "MC_NamePool_NoNilCheck.cfg", "without the nil-id guard a double release hands one id to two holders")
     ctx.tlc_expect_violation("", "NamePool", "MC_NamePool_Recycle.cfg", "reachability: a released id is handed out again (NeverRecycled is refuted)")
     t = os.path.join(ctx.scratch, "np.ndjson")
-    ctx.run_driver(["np", "-out", t, "-seed", ctx.seed, "-rounds", 40 if thorough else 8, "-iters", 300 if thorough else 120], race=True)
+    # GORACE exitcode=0: a race report does not end the driver, so the recorded history is judged by
+    # TLC as well; the report itself is an execution the specification has no action for
+    p = ctx.run_driver(["np", "-out", t, "-seed", ctx.seed, "-rounds", 40 if thorough else 8, "-iters", 300 if thorough else 120],
+                       race=True, env={"GORACE": "exitcode=0"})
+    if "WARNING: DATA RACE" in p.stdout:
+        import hashlib
+        path = os.path.join(os.path.dirname(os.path.dirname(os.path.abspath(__file__))), "replays",
+                            "C18-race-%s.txt" % hashlib.sha1(p.stdout[:4000].encode()).hexdigest()[:10])
+        os.makedirs(os.path.dirname(path), exist_ok=True)
+        open(path, "w").write(p.stdout[-20000:])
+        ctx.violations.append((path, "the race detector reported a data race in namepool while names were acquired and released concurrently"))
     s = json.load(open(t + ".summary.json"))
     ctx.validate("", "Trace_NamePool", "Trace_NamePool.cfg", t, label="concurrent histories under the race detector, forced GCs")
     ctx.extra.update(s)
